@@ -200,3 +200,149 @@ func vHarnessWritersPaging() {
 		}
 	}
 }
+
+// C13 key-based paging: walking a listing page by page through next_key (any page size, either
+// direction) yields every item exactly once, in the order of the complete listing.
+func vHarnessTopicsKeyPaging() {
+	ctx, k := vEnvAol()
+	q := vNondetAddr("qOwner")
+	qa := vDec(q)
+	n := 0
+	for i := 0; i < vListN; i++ {
+		name := vNondetAtom("t")
+		vAssume(len(name) <= 255)
+		if vNondetBool("has") {
+			tk := types.TopicCompositeKey{OwnerAddress: qa, TopicName: name}
+			vAssume(!k.HasTopic(ctx, tk))
+			k.SetTopic(ctx, tk, types.Topic{TotalRecords: vNondetU64("tr")})
+			n++
+		}
+	}
+	// an entry of another owner must never show up on any page
+	if vNondetBool("otherOwner") {
+		oa := vDec(vNondetAddr("other"))
+		on := vNondetAtom("otherTopic")
+		vAssume(len(on) <= 255)
+		otk := types.TopicCompositeKey{OwnerAddress: oa, TopicName: on}
+		if !k.HasTopic(ctx, otk) {
+			k.SetTopic(ctx, otk, types.Topic{})
+			if !vBytesEqual(oa, qa) {
+				vCover("a topic of another owner exists")
+			} else {
+				n++
+			}
+		}
+	}
+	c := sdk.WrapSDKContext(ctx)
+	full, err := k.Topics(c, &types.QueryTopicsRequest{OwnerAddress: q})
+	vAssume(err == nil)
+	l := vNondetU64("limit")
+	vAssume(l >= 1 && l <= 3)
+	rev := vNondetBool("reverse")
+	var got []string
+	var key []byte
+	pages := 0
+	for {
+		page, perr := k.Topics(c, &types.QueryTopicsRequest{OwnerAddress: q, Pagination: &query.PageRequest{Key: key, Limit: l, Reverse: rev}})
+		vCheck(perr == nil, "C13: a key-paged Topics query succeeds")
+		if perr != nil {
+			return
+		}
+		pages++
+		vCheck(uint64(len(page.TopicNames)) <= l, "C13: a page is never larger than the limit")
+		got = append(got, page.TopicNames...)
+		key = page.Pagination.NextKey
+		if len(key) == 0 {
+			break
+		}
+		vCheck(uint64(len(page.TopicNames)) == l, "C13: a page that is followed by another page is full")
+		if pages > vListN+1 {
+			vCheck(false, "C13: walking by next_key terminates")
+			return
+		}
+	}
+	vCover("topics walked by key")
+	vCheck(len(got) == n, "C13: walking all pages by next_key yields every topic of the owner exactly once")
+	if len(got) == n && len(full.TopicNames) == n {
+		for i := range got {
+			j := i
+			if rev {
+				j = n - 1 - i
+			}
+			vCheck(got[i] == full.TopicNames[j], "C13: pages walked by next_key are consecutive slices of the complete listing")
+		}
+	}
+	if pages >= 2 {
+		vCover("at least two pages walked by key")
+	}
+}
+
+func vHarnessWritersKeyPaging() {
+	ctx, k := vEnvAol()
+	q := vNondetAddr("qOwner")
+	qa := vDec(q)
+	qt := vNondetAtom("qTopic")
+	vAssume(len(qt) <= 255)
+	n := 0
+	for i := 0; i < vListN; i++ {
+		w := vDec(vNondetAddr("w"))
+		if vNondetBool("has") {
+			wk := types.WriterCompositeKey{OwnerAddress: qa, TopicName: qt, WriterAddress: w}
+			vAssume(!k.HasWriter(ctx, wk))
+			k.SetWriter(ctx, wk, types.Writer{Moniker: vNondetAtom("m")})
+			n++
+		}
+	}
+	// a writer of a topic whose name extends the queried one must never show up
+	if vNondetBool("otherTopic") {
+		ot := vNondetAtom("otherTopicName")
+		vAssume(len(ot) <= 255 && ot != qt)
+		owk := types.WriterCompositeKey{OwnerAddress: qa, TopicName: ot, WriterAddress: vDec(vNondetAddr("ow"))}
+		if !k.HasWriter(ctx, owk) {
+			k.SetWriter(ctx, owk, types.Writer{})
+			vCover("a writer of another topic exists")
+		}
+	}
+	c := sdk.WrapSDKContext(ctx)
+	full, err := k.Writers(c, &types.QueryWritersRequest{OwnerAddress: q, TopicName: qt})
+	vAssume(err == nil)
+	l := vNondetU64("limit")
+	vAssume(l >= 1 && l <= 3)
+	rev := vNondetBool("reverse")
+	var got []string
+	var key []byte
+	pages := 0
+	for {
+		page, perr := k.Writers(c, &types.QueryWritersRequest{OwnerAddress: q, TopicName: qt, Pagination: &query.PageRequest{Key: key, Limit: l, Reverse: rev}})
+		vCheck(perr == nil, "C13: a key-paged Writers query succeeds")
+		if perr != nil {
+			return
+		}
+		pages++
+		vCheck(uint64(len(page.WriterAddresses)) <= l, "C13: a page is never larger than the limit")
+		got = append(got, page.WriterAddresses...)
+		key = page.Pagination.NextKey
+		if len(key) == 0 {
+			break
+		}
+		vCheck(uint64(len(page.WriterAddresses)) == l, "C13: a page that is followed by another page is full")
+		if pages > vListN+1 {
+			vCheck(false, "C13: walking by next_key terminates")
+			return
+		}
+	}
+	vCover("writers walked by key")
+	vCheck(len(got) == n, "C13: walking all pages by next_key yields every writer of the topic exactly once")
+	if len(got) == n && len(full.WriterAddresses) == n {
+		for i := range got {
+			j := i
+			if rev {
+				j = n - 1 - i
+			}
+			vCheck(got[i] == full.WriterAddresses[j], "C13: pages walked by next_key are consecutive slices of the complete listing")
+		}
+	}
+	if pages >= 2 {
+		vCover("at least two writer pages walked by key")
+	}
+}
